@@ -5,7 +5,7 @@ from __future__ import annotations
 import ast
 
 from .. import AnalysisError
-from ..astutil import Deps, is_name
+from ..astutil import Deps, is_name, unwrap
 from ..cfg import CFG
 from ..engine import Analysis
 from ..kinds import NOVALUE, scenario
@@ -123,6 +123,14 @@ def check(an: Analysis) -> None:
                     if any(k.arg is None for k in n.keywords):
                         ob.fail(fi, n, "create_task receives **kwargs that may carry a shared context")
                     continue
+                if isinstance(cv, ast.Name):
+                    # `snapshot = copy_context()` taken for this very call: a local with one definition and this single use
+                    dd_ = Deps(prog, fi)
+                    sv_ = dd_.single_value(cv.id)
+                    uses_ = [x for x in fi.own_nodes() if isinstance(x, ast.Name) and x.id == cv.id and isinstance(x.ctx, ast.Load)]
+                    in_loop_ = any(isinstance(p_, (ast.For, ast.AsyncFor, ast.While)) for p_ in _ancestors(n)) and not any(isinstance(p_, (ast.For, ast.AsyncFor, ast.While)) for p_ in _ancestors(sv_) if sv_ is not None)
+                    if sv_ is not None and dd_.owner(cv.id) is fi and len(uses_) == 1 and not in_loop_:
+                        cv = unwrap(sv_)
                 if not (isinstance(cv, ast.Call) and an.callee(fi, cv) == "contextvars.copy_context" and not cv.args):
                     ob.fail(fi, n, f"task is started in `{stmt_text(cv)}` - a stored/shared Context - instead of a fresh copy: its scope changes leak to whoever else uses that context")
             elif isinstance(n, ast.Call) and an.callee(fi, n) in ("asyncio.ensure_future", "asyncio.create_task"):
@@ -204,3 +212,9 @@ def _borrowed_c02(an: Analysis) -> None:
     from . import c02
 
     borrow(an, c02.check, {"C02.1": "C03.7"})
+
+
+def _ancestors(n: ast.AST | None):
+    from ..loader import ancestors
+
+    return ancestors(n) if n is not None else []
